@@ -30,6 +30,10 @@ def pos_units(t):
 def u_atoms(t, lazy=0): return t_unit('t_atoms_%s' % ('lazy' if lazy else 'eager'), 'ATOMS', ['-DATOMS_LAZY=%d' % lazy], tier=t)
 
 
+def u_limits(t): return t_unit('t_limits', 'LIMITS', tier=t)
+def u_scopes(t): return t_unit('t_scopes', 'SCOPES', tier=t)
+
+
 T_ASSUME = [
     'the reference interpreter (engine/ref.hpp) is the PEG formalism / the documented expansions',
     'table-dispatched grammars behave like static grammars of named rules (T<->static conformance is checked under C01)',
@@ -82,6 +86,23 @@ CHECKS = {
                 'from the convenience space; oracle: no guard-page fault, no peek_char(offset)/bump(count) reaching the end of the current window '
                 '(TAO_PEGTL_VERIF hook), cursor <= end at every rule entry/exit',
         'assumptions': T_ASSUME + ['reads through std::memcmp on current() are only seen by the guard page, i.e. for windows that end at the physical end of the buffer'],
+    },
+    'C18': {
+        'units': lambda t: [u_limits(t)],
+        'rule': 'limit_bytes<n> (n in 1,2,3) and check_bytes<1> attached by rule id to greedy, look-ahead, failing and raising rules that start at every offset '
+                '(tables of <=3 rules over the classical operators, must, until, bytes<2>, everything, string), all inputs over {a,b} of length <=4 (thorough 5) on '
+                'guard-paged buffers; limit_depth<N> (N in 1,2) on every rule of recursive tables; oracle: reference evaluates the guarded rule inside the window '
+                '[start, start+n) / with a depth counter; after every outcome current_depth()==0 and end() is the original end; no peek/bump beyond the window',
+        'assumptions': T_ASSUME,
+    },
+    'C13': {
+        'units': lambda t: [u_scopes(t)],
+        'rule': 'tables of <=4 rules over the classical operators, state<S,...>, enable, disable with change_state / change_states / change_action / '
+                'change_action_and_state(s) / change_control / enable_action / disable_action attached by rule id (3 attachment families); all inputs over {a,b} '
+                'of length <=2 (thorough 3); apply_mode action and nothing; oracle: exact equality of the state constructor/success/destructor log (instance ids, '
+                'cursor, outer state), of the surviving action log (family, span, state instance seen) and of the control seen by every rule attempt with a '
+                'lexical scoping model',
+        'assumptions': T_ASSUME,
     },
     'C06': {
         'units': lambda t: [dict(u, shards=8) for u in pos_units(t)],
